@@ -249,6 +249,29 @@ func LoadEngine(repo string, patterns []string, overlay map[string][]byte, specs
 	for _, sp := range prog.AllPackages() {
 		eng.ssaPkgs[sp.Pkg.Path()] = sp
 	}
+	// ghost fields declared on types of imported packages
+	if specs.GhostDeclPkg == nil {
+		specs.GhostDeclPkg = map[string]map[string]string{}
+	}
+	for _, g := range specs.GhostQualified {
+		dp := eng.typesPkg(g.DeclPkg)
+		if dp == nil {
+			continue // declaring package not part of this load
+		}
+		ip := eng.importByLocalName(dp, g.Alias)
+		if ip == nil {
+			return nil, fmt.Errorf("ghost field %s.%s.%s: package %s does not import %s", g.Alias, g.Type, g.Field, g.DeclPkg, g.Alias)
+		}
+		k := ip.Path() + "." + g.Type
+		if specs.GhostFlds[k] == nil {
+			specs.GhostFlds[k] = map[string]*TypeExpr{}
+		}
+		specs.GhostFlds[k][g.Field] = g.Ty
+		if specs.GhostDeclPkg[k] == nil {
+			specs.GhostDeclPkg[k] = map[string]string{}
+		}
+		specs.GhostDeclPkg[k][g.Field] = g.DeclPkg
+	}
 	return eng, nil
 }
 
